@@ -65,7 +65,7 @@ def step(B, G, nsamp=3):
         out = B.scalars(node.apply(None, samples))
         G.fact(tag + ".shape", tuple(np.shape(out)) == (nsamp,), np.shape(out))
         for i in range(nsamp):
-            G.eq("%s[%d]" % (tag, i), out[i], ref[i])
+            G.eq("%s[%d]" % (tag, i), out[i], ref[i], tol=1e-13)  # pure arithmetic: the replay can be (almost) exact
         st = node.statistics_from_samples(None, samples)
         mean = sum(ref[1:], ref[0]) * O.frac(1, nsamp)
         var = sum(((r - mean) * (r - mean) for r in ref[1:]), (ref[0] - mean) * (ref[0] - mean)) * O.frac(1, nsamp - 1)
@@ -152,7 +152,7 @@ def trees(B, G, depth=3, count=60, nsamp=2, seed=0):
         node, ref = gen(depth)
         out = B.scalars(node.apply(None, samples))
         for i in range(nsamp):
-            G.eq("tree%d[%d]" % (t, i), out[i], ref[i])
+            G.eq("tree%d[%d]" % (t, i), out[i], ref[i], tol=1e-13)
     G.twin("twin_tree", B.scalars((leaves[0] - 2 * leaves[1]).apply(None, samples))[0], leaves[0].vals[0] + 2 * leaves[1].vals[0])
 
 
